@@ -645,6 +645,9 @@ class Body:
         """R10: keep only the top-level statements from the one starting with start_prefix to the one
         starting with end_prefix (inclusive); everything else in the body is dropped and reported."""
         toks = self.toks
+        after = start_prefix.strip().startswith(">")    # ">prefix": the fragment starts just AFTER the statement with that prefix
+        if after:
+            start_prefix = start_prefix.strip()[1:]
         sp = [t.text for t in lex(start_prefix)]
         before = end_prefix.strip().startswith("<")     # "<prefix": the fragment ends just BEFORE the statement with that prefix
         if before:
@@ -660,6 +663,9 @@ class Body:
             for k, (s, e) in enumerate(spans):
                 if si is None and (start_prefix.strip() == "^" or [t.text for t in toks[s:s + len(sp)]] == sp):
                     si = k     # "^": from the first statement of the function
+                    if after:
+                        si = k + 1
+                        continue
                 if si is not None and end_prefix.strip() != "$" and [t.text for t in toks[s:s + len(ep)]] == ep:
                     ei = k - 1 if before else k
                     break
